@@ -35,6 +35,7 @@ class StringConcatViolation:
     line_number: int
     column: int
     loop_type: str  # 'for' or 'while'
+    scope_line: int = 0  # first line of the enclosing function (0 at module level)
 
 
 # thailint: ignore-next-line[srp.violation] Uses small focused methods to reduce complexity
@@ -45,6 +46,7 @@ class PythonStringConcatAnalyzer:
         """Initialize the analyzer."""
         self._string_variables: set[str] = set()
         self._non_string_variables: set[str] = set()  # Lists, numbers, etc.
+        self._scope_line = 0
 
     def find_violations(self, tree: ast.AST) -> list[StringConcatViolation]:
         """Find all string concatenation in loop violations.
@@ -168,8 +170,12 @@ class PythonStringConcatAnalyzer:
 
         self._check_for_string_concat(node, violations, current_loop, current_reset_vars)
 
+        outer_scope_line = self._scope_line
+        if isinstance(node, (ast.FunctionDef, ast.AsyncFunctionDef)):
+            self._scope_line = node.lineno
         for child in ast.iter_child_nodes(node):
             self._find_concat_in_loops(child, violations, current_loop, current_reset_vars)
+        self._scope_line = outer_scope_line
 
     def _get_loop_type(self, node: ast.AST) -> str | None:
         """Get the loop type if node is a loop, else None."""
@@ -304,6 +310,7 @@ class PythonStringConcatAnalyzer:
                 line_number=node.lineno,
                 column=node.col_offset,
                 loop_type=loop_type,
+                scope_line=self._scope_line,
             )
         )
 
@@ -353,13 +360,13 @@ class PythonStringConcatAnalyzer:
         Returns:
             Deduplicated list with one violation per variable per loop
         """
-        # Group by variable name and keep first occurrence
-        seen: set[str] = set()
+        # Group by variable name within one function and keep first occurrence
+        seen: set[tuple[str, int]] = set()
         result: list[StringConcatViolation] = []
 
         for v in violations:
-            if v.variable_name not in seen:
-                seen.add(v.variable_name)
+            if (v.variable_name, v.scope_line) not in seen:
+                seen.add((v.variable_name, v.scope_line))
                 result.append(v)
 
         return result
